@@ -307,14 +307,19 @@ func (sc *SvcConn) Send(p client.MessagePayload) bool {
 	if err := m.Serialize(&buf); err != nil {
 		panic(fmt.Sprintf("service model: serialize %T: %v", p, err))
 	}
-	sc.sentOff += uint64(buf.Len())
-	sc.SentLog = append(sc.SentLog, SvcSent{At: sc.S.cs.S.Now(), Msg: p, EndOff: sc.sentOff})
-	simrt.Eventf("svc>client", "%s %s", sc, client.NameForMessageType(p.Type()))
-	if _, err := sc.C.Write(buf.Bytes()); err != nil {
-		sc.Dead = true
-		return false
-	}
-	return true
+	// bookkeeping and write are one step for the scheduler: with several model tasks sending on
+	// one connection the recorded offsets must be the order of the bytes on the stream
+	ok := true
+	simrt.NoPreempt(func() {
+		sc.sentOff += uint64(buf.Len())
+		sc.SentLog = append(sc.SentLog, SvcSent{At: sc.S.cs.S.Now(), Msg: p, EndOff: sc.sentOff})
+		simrt.Eventf("svc>client", "%s %s", sc, client.NameForMessageType(p.Type()))
+		if _, err := sc.C.Write(buf.Bytes()); err != nil {
+			sc.Dead = true
+			ok = false
+		}
+	})
+	return ok
 }
 
 // SendRaw writes arbitrary bytes.
